@@ -33,12 +33,50 @@ MODULES = [
         "function1": {"individual": L(F), "position": L(F), "height": F, "width": F},
     }),
     ("deap/benchmarks/binary.py", "bin_", {
+        "bin2float": {"min_": F, "max_": F, "nbits": I, "individual": L(I)},
         "trap": {"individual": L(I)}, "inv_trap": {"individual": L(I)},
         "chuang_f1": {"individual": L(I)}, "chuang_f2": {"individual": L(I)}, "chuang_f3": {"individual": L(I)},
         "royal_road1": {"individual": L(I), "order": I}, "royal_road2": {"individual": L(I), "order": I},
     }),
     ("deap/benchmarks/tools.py", "tools_", {}),
 ]
+# rendered by py2lean.translate_decorator (the value the decorator hands to the decorated function)
+DECORATOR_FACTORIES = {("deap/benchmarks/binary.py", "bin2float")}
+# the peak functions a MovingPeaks object may hold (ASSUMPTIONS of the check): an enumeration generated after the three
+# functions, with `mp_PFn.apply` dispatching to their regenerated definitions
+PFN = py2lean.FN("mp_PFn", [L(F), L(F), F, F], F)
+PFN_NAMES = ["cone", "sphere", "function1"]
+PFN_TEXT = """/-- the peak functions of `movingpeaks.py` a `MovingPeaks` object may hold -/
+inductive mp_PFn where
+  | cone | sphere | function1
+/-- `func(individual, position, height, width)` for `func` one of them -/
+def mp_PFn.apply (f : mp_PFn) (x p : List α) (h w : α) : Option α :=
+  match f with
+  | .cone => mp_cone x p h w
+  | .sphere => mp_sphere x p h w
+  | .function1 => mp_function1 x p h w
+"""
+# classes: (file, class) -> (fields, [(method, lean suffix, signature of its parameters, decorator shape?)]) ; the methods
+# listed are rendered by py2lean.translate_method as functions of the object's fields, the others stay refused
+CLASS_METHODS = {
+    ("deap/benchmarks/movingpeaks.py", "MovingPeaks"): (
+        {"peaks_function": L(PFN), "peaks_position": L(L(F)), "peaks_height": L(F), "peaks_width": L(F),
+         "basis_function": py2lean.OFN, "_offline_error": F, "nevals": I}, [
+        # count=False: the evaluation without the offline-error bookkeeping (that path calls changePeaks)
+        ("__call__", "call", {"individual": L(F), "count": py2lean.K(False)}, False),
+        ("globalMaximum", "globalMaximum", {}, False),
+        ("maximums", "maximums", {}, False),
+        ("offlineError", "offlineError", {}, False)]),
+    ("deap/benchmarks/tools.py", "translate"): ({"vector": L(F)}, [
+        ("__init__", "init", {"vector": L(F)}, False), ("__call__", "call", {"individual": L(F)}, True),
+        ("translate", "set", {"vector": L(F)}, False)]),
+    ("deap/benchmarks/tools.py", "scale"): ({"factor": L(F)}, [
+        ("__init__", "init", {"factor": L(F)}, False), ("__call__", "call", {"individual": L(F)}, True),
+        ("scale", "set", {"factor": L(F)}, False)]),
+    ("deap/benchmarks/tools.py", "bound"): ({}, [
+        ("_clip", "clip", {"individual": L(F)}, False), ("_wrap", "wrap", {"individual": L(F)}, False),
+        ("_mirror", "mirror", {"individual": L(F)}, False)]),
+}
 DEFAULT_SIG = {"individual": L(F), "data": L(F)}
 
 HEADER = """import DeapModel.Lemmas.C20Gen
@@ -87,13 +125,57 @@ def translate(repo):
         for name in mod.public:
             lean = prefix + name
             full = "Gen." + lean
+            if rel == "deap/benchmarks/movingpeaks.py" and name == "MovingPeaks":
+                if all("Gen.mp_" + f in done for f in PFN_NAMES):
+                    out.append(PFN_TEXT)
+                    gen_texts.append(PFN_TEXT)
+                    defs.append("Gen.mp_PFn")
+                    done.append("Gen.mp_PFn")       # its block: the enumeration against the model's PFunc
+                else:
+                    problems.append("movingpeaks.py: cone / sphere / function1 are not all translated, the peak-function "
+                                    "enumeration cannot be generated")
+            if name not in mod.functions and (rel, name) in CLASS_METHODS:
+                fields, meths = CLASS_METHODS[(rel, name)]
+                cls_node = mod.globals[name][1]
+                listed = {m[0] for m in meths}
+                for sub in cls_node.body:
+                    if isinstance(sub, py2lean.ast.FunctionDef) and sub.name not in listed:
+                        refused.append("%s:%s.%s (method outside the rendered set)" % (rel, name, sub.name))
+                        table.append((rel, "%s.%s" % (name, sub.name), "refused", "method not rendered"))
+                sibs = {}
+                for meth, suffix, msig, deco in meths:
+                    lean = "%s%s_%s" % (prefix, name, suffix)
+                    full = "Gen." + lean
+                    try:
+                        text, rty = py2lean.translate_method(mod, name, meth, fields, msig, lean, decorator=deco, siblings=sibs)
+                        if not deco:
+                            sibs[meth] = py2lean.METHOD_INFO[lean]
+                    except Refuse as e:
+                        refused.append("%s:%s.%s (%s)" % (rel, name, meth, e))
+                        table.append((rel, "%s.%s" % (name, meth), "refused", str(e)))
+                        if full in blocks:
+                            lost.append(full)
+                            problems.append("%s:%s.%s has left the translated sub-language (%s); its theorems %s cannot be checked"
+                                            % (rel, name, meth, e, theorem_names(blocks[full])))
+                        continue
+                    out.append("/-- `%s:%s.%s`, regenerated from the source -/" % (rel, name, meth))
+                    out.append(text)
+                    gen_texts.append(text)
+                    out.append("")
+                    defs.append(full)
+                    done.append(full)
+                    table.append((rel, "%s.%s" % (name, meth), "translated", "theorem" if full in blocks else "no theorem"))
+                continue
             if name not in mod.functions:
                 refused.append("%s:%s (class: outside the sub-language)" % (rel, name))
                 table.append((rel, name, "refused", "class"))
                 continue
             sig = sigs.get(name, DEFAULT_SIG)
             try:
-                text, rty = py2lean.translate_function(mod, name, sig, lean)
+                if (rel, name) in DECORATOR_FACTORIES:
+                    text, rty = py2lean.translate_decorator(mod, name, sig, lean)
+                else:
+                    text, rty = py2lean.translate_function(mod, name, sig, lean)
             except Refuse as e:
                 refused.append("%s:%s (%s)" % (rel, name, e))
                 table.append((rel, name, "refused", str(e)))
@@ -198,6 +280,32 @@ def prelude_selftest():
         for b in (-3, -2, -1, 1, 2, 3):
             lines.append("#eval (Int.fdiv (%d) (%d), Int.fmod (%d) (%d))" % (a, b, a, b))
             exp.append("(%d, %d)" % (a // b, a % b))
+    # round 8: stepped ranges, binary numerals, item assignment, list repetition, int powers
+    for a in range(-3, 4):
+        for b in range(-3, 13):
+            for k in (2, 3, 4, 8):
+                lines.append("#eval Gen.rangeStep (%d) (%d) %d" % (a, b, k))
+                exp.append(str(list(range(a, b, k))))
+    import itertools
+    for n in range(0, 5):
+        for bits in itertools.product((0, 1), repeat=n):
+            lines.append("#eval Gen.binNumeral (%s : List Int)" % list(bits))
+            exp.append("some %d" % int("".join(map(str, bits)), 2) if n else "none")
+    for i in range(-7, 8):
+        lines.append("#eval Gen.setItem L (%d) 99" % i)
+        c = list(L)
+        try:
+            c[i] = 99
+            exp.append("some %s" % c)
+        except IndexError:
+            exp.append("none")
+    for n in range(-2, 4):
+        lines.append("#eval Gen.listMul ([1, 2] : List Int) (%d)" % n)
+        exp.append(str([1, 2] * n))
+    for a in range(-2, 4):
+        for e_ in range(0, 5):
+            lines.append("#eval Gen.ipowInt (%d) (%d)" % (a, e_))
+            exp.append("some %d" % (a ** e_) if a ** e_ >= 0 else "some (%d)" % (a ** e_))
     with tempfile.TemporaryDirectory() as d:
         f = os.path.join(d, "Pre.lean")
         open(f, "w").write("\n".join(lines) + "\n")
